@@ -88,7 +88,18 @@ func histString(ops []HOp) string {
 }
 
 // identity of planned session k: unique subjects, source and target.
+// userIdx: one session in three logs in as the same account, from the same
+// address, to the same host as session 0 - as happens when one person opens
+// several connections; those identities differ only in the sshd pid.
+func userIdx(k, pid int) int {
+	if pid%3 == 0 && k < 9000 {
+		return 0
+	}
+	return k
+}
+
 func identityEvent(k int, pid int, loggedAt time.Time) *auditevent.AuditEvent {
+	k = userIdx(k, pid)
 	e := auditevent.NewAuditEvent(
 		common.ActionLoginIdentifier,
 		auditevent.EventSource{Type: "IP", Value: fmt.Sprintf("10.%d.%d.7", k/250, k%250), Extra: map[string]any{"port": strconv.Itoa(40000 + k)}},
